@@ -884,6 +884,35 @@ func (e *Engine) callBuiltin(fr *frame, b *ssa.Builtin, args []Value, in ssa.Ins
 		case *Value:
 			return int64(len((*x).(Array)))
 		}
+	case "min", "max":
+		// integers (possibly symbolic) and concrete strings
+		isMax := b.Name() == "max"
+		acc := args[0]
+		for _, y := range args[1:] {
+			switch a := acc.(type) {
+			case string:
+				if (y.(string) > a) == isMax && y.(string) != a {
+					acc = y
+				}
+			default:
+				ai, aok := acc.(int64)
+				yi, yok := y.(int64)
+				if aok && yok {
+					if (yi > ai) == isMax && yi != ai {
+						acc = y
+					}
+					continue
+				}
+				at, yt := e.toTerm(acc, 64), e.toTerm(y, 64)
+				c := e.ts.Cmp("bvslt", at, yt)
+				if isMax {
+					acc = e.ts.Ite(c, yt, at)
+				} else {
+					acc = e.ts.Ite(c, at, yt)
+				}
+			}
+		}
+		return acc
 	case "cap":
 		switch x := args[0].(type) {
 		case Slice:
